@@ -128,8 +128,77 @@ def make_jump(exact):
                   z3.ForAll([m], z3.Implies(z3.And(m >= 0, m < to_num(L)), within_fn(lambda j: Xa.get((m, j))))))
         vc.canary('canary: some path returns', z3.BoolVal(False))
     run.__doc__ = "_jump (%s): the recorded path is exactly the chain of accepted steps from (x0, t0); rejected or impossible steps record nothing" % ('exact' if exact else 'tau-leap with first-reaction fall-back')
-    contract(cid, ['C04', 'C11', 'C15', 'C16'], SIM + 'SimulateOde._jump', max_paths=3000)(run)
+    contract(cid, ['C04', 'C10', 'C11', 'C15', 'C16'], SIM + 'SimulateOde._jump', max_paths=3000,
+             replay=(lambda clause, m: __import__('contracts.native_steps', fromlist=['x']).jump_search(exact)))(run)
 
 
 make_jump(True)
 make_jump(False)
+
+
+# ---------------------------------------------------------------------------------------------
+# solve_stochast, scalar horizon: the raw paths returned are exactly the outputs of `iteration`
+# serial calls of _jump with this horizon and algorithm
+
+RunX = z3.Function('RunX', I, I, I, R)     # (run, row, state)
+RunJ = z3.Function('RunJ', I, I, I, R)
+RunT = z3.Function('RunT', I, I, R)
+RunL = z3.Function('RunL', I, I)            # number of recorded times of a run
+
+
+def make_solve_raw(exact, full_output):
+    cid = 'C04/solve_stochast/raw/exact=%s/full_output=%s' % (exact, full_output)
+
+    def run(vc):
+        nS, nE, n = vc.int('nS', ge=1), vc.int('nE', ge=1), vc.int('iteration', ge=0)
+        x0 = vc.array('x0', (nS,))
+        s = z3.Int('s_int')
+        vc.require('integer initial state', z3.ForAll([s], z3.Implies(z3.And(s >= 0, s < nS), z3.IsInt(x0.get((s,))))))
+        T = vc.real('T')
+        calls = []
+
+        def jump_summary(it, args, kw):
+            self_, finalT = args[0], args[1]
+            if it.lazy_index is None:
+                raise Unsupported("_jump called outside the run comprehension")
+            epoch, r = it.lazy_index
+            calls.append(dict(kw))
+            it.ctx.oblige('pre(_jump): horizon is the requested time', to_real(finalT) == T)
+            it.ctx.oblige('pre(_jump): the requested algorithm', kw.get('exact', False) is exact)
+            it.ctx.oblige('pre(_jump): full raw output requested', kw.get('full_output', True) is True)
+            it.ctx.oblige('pre(_jump): serial path passes no seed', kw.get('seed', None) is None)
+            L = RunL(r)
+            return (SArr((L, nS), lambda o: RunX(r, o[0], o[1])), SArr((L - 1, nE), lambda o: RunJ(r, o[0], o[1])),
+                    SArr((L,), lambda o: RunT(r, o[0])), SArr((L - 1,), lambda o: z3.RealVal(0)))
+        vc.summary(SIM + 'SimulateOde._jump', jump_summary)
+        cls = vc.cls(SIM + 'SimulateOde')
+        self = ObjVal(cls, {'_x0': x0, '_t0': vc.real('t0')})
+        out = vc.call(vc.func(SIM + 'SimulateOde.solve_stochast'), self, T, n, parallel=False, exact=exact, full_output=full_output)
+        vc.ensure('returns normally', out.returned)
+        if not out.returned:
+            return
+        if full_output:
+            vc.ensure('returns (states, counts, times)', isinstance(out.value, tuple) and len(out.value) == 3)
+            Xs, Js, Ts = out.value
+        else:
+            Xs, Js, Ts = out.value, None, None
+        r = z3.Int('r_q')
+        a, b = z3.Int('a_q'), z3.Int('b_q')
+        vc.ensure('one raw path per requested run', to_num(vc.it.length(Xs)) == n)
+        vc.assume(z3.And(r >= 0, r < n))
+        Xr = vc.it.getitem(Xs, r)
+        vc.ensure('run r: states are the states of the r-th _jump call',
+                  z3.And(to_num(Xr.shape[0]) == RunL(r), z3.ForAll([a, b], Xr.get((a, b)) == RunX(r, a, b))))
+        if full_output:
+            Jr, Tr = vc.it.getitem(Js, r), vc.it.getitem(Ts, r)
+            vc.ensure('run r: counts and times belong to the same _jump call as the states',
+                      z3.And(z3.ForAll([a, b], Jr.get((a, b)) == RunJ(r, a, b)), z3.ForAll([a], Tr.get((a,)) == RunT(r, a))))
+        vc.canary('canary: reachable', z3.BoolVal(False))
+    run.__doc__ = "solve_stochast with a scalar horizon returns, per run, exactly what the r-th serial _jump(T, exact=%s) returned" % exact
+    contract(cid, ['C04', 'C10', 'C16', 'C11'], SIM + 'SimulateOde.solve_stochast')(run)
+
+
+from pyvc.values import Unsupported  # noqa: E402
+for _e in (True, False):
+    for _f in (True, False):
+        make_solve_raw(_e, _f)
